@@ -23,6 +23,7 @@ const (
 
 var seqKinds = []string{
 	"lease", "lease", "lease", "lease", "lease", "lease", "lease", "lease",
+	"retry-lease", "retry-lease", "retry-lease",
 	"reply", "reply", "reply", "reply", "reply", "reply",
 	"reset", "reset", "reset",
 	"reply-close", "reply-close",
@@ -34,7 +35,7 @@ var seqKinds = []string{
 	"shutdown", "close",
 }
 
-var batchKinds = []string{"lease", "lease", "lease", "reply", "reply", "reset", "reset", "upclose", "uprst"}
+var batchKinds = []string{"lease", "lease", "lease", "retry-lease", "reply", "reply", "reset", "reset", "upclose", "uprst"}
 
 func genOp(kinds []string) *rapid.Generator[Op] {
 	return rapid.Custom(func(t *rapid.T) Op {
